@@ -24,6 +24,10 @@ CHECKS = {
          "4.C11", "tens of thousands of words per run incl. every flag combination against every coordinate class; points with chosen y (around (p-1)/2, y_im = 0, y_re = 0) that random sampling never produces; one known finding (G1 x = 0) is classified by mechanism"),
  "C17": ("reference-model monitors on subgroup_check ([r]P = O in the model) and clear_cofactor_G1/G2 ([h_eff]P, result in subgroup) over k*G, k*G+T and T for every small prime factor of both cofactors and large-cofactor points, in random projective rescalings; constants compared with values derived from the curve parameter",
          "4.C17", "points with a non-trivial component of each prime order dividing the cofactors are constructed explicitly, so a test that multiplies by the wrong order or skips the check is exposed"),
+ "C05": ("bilinearity / additivity / negation / order / infinity identities evaluated in the model's own GF(p^12) arithmetic on values returned by the real pairing of each of the four implementations (monitor wrapped around each pairing records the calls); off-curve arguments must raise",
+         "4.C05", "identities use boundary scalars (0, 1, 2, r-1, r, r+1) and random 255-bit ones, random base points, optimized operands in random projective rescalings and four infinity representatives; evaluated outside the library's FQ12 so a field defect cannot mask a pairing defect"),
+ "C12": ("differential monitor: optimized vs reference pairing on identical affine inputs (coefficient-wise), split-final-exponentiation products recomputed in the model, final_exponentiate / exp_by_p against the model's plain square-and-multiply on arbitrary FQ12 elements",
+         "4.C12", "reference and optimized implementations are run side by side on random subgroup points (optimized operands rescaled); products of 1..6 Miller values incl. verifier shapes and identity factors; FQ12 elements 0, 1, sparse, subfield, random, Miller outputs"),
  "C06": ("reference-model monitors wrapped around ecdsa_raw_sign / deterministic_generate_k / ecdsa_raw_recover (independent RFC 6979 + affine ECDSA model, OpenSSL as second oracle) over directed hostile key/hash grids",
          "4.C06", "every sign/recover execution is compared with an independent deterministic model; classes for both low-s branches, both R.y parities, boundary keys and hash lengths 0..64 are counted and required"),
  "C07": ("reference-model monitors on add/double/neg/multiply/twist of the four curve modules (independent affine model), exhaustive small-field substitution through the unchanged functions, constants compared with values derived from the curve parameters",
@@ -42,6 +46,8 @@ CHECKS = {
          "4.C18", "real-curve cases incl. negative and >N scalars, identity operands, P=Q, P=-Q; every ordered pair and scalar on small curves enumerated through the unchanged functions"),
  "C19": ("reference-model monitor on ecdsa_raw_recover over the hostile (v, r, s, hash) grid incl. r=N, r in [N,P), s multiples of N, identity result; refusals must be ValueError",
          "4.C19", "every recover execution compared with an independent lift-and-solve model; returned keys re-verified by the ECDSA equation in the model"),
+ "C20": ("purity monitor at the call boundary (value digests of every argument and of a registry of all module constants before/after each call) plus an offline history checker over recorded event logs of many interleavings in 16 fresh interpreters with varied PYTHONHASHSEED: same (operation, arguments) => same result digest; registry digest constant",
+         "4.C20", "about 700 distinct (operation, arguments) pairs over all modules, each observed at several positions of several histories; ad-hoc field classes are created mid-history; any in-place change of generators, tables, tags or arguments changes a digest"),
 }
 
 PENDING = {
